@@ -46,7 +46,7 @@ def send_items(r, total_hint):
 
 
 def gen_io(rng, tier, mult):
-    n = (500 if tier == "quick" else 10000) * mult
+    n = (10000 if tier == "quick" else 60000) * mult
     cases = []
     for ci in range(n):
         r = rng.fork("io%d" % ci)
@@ -84,7 +84,7 @@ def gen_io(rng, tier, mult):
 
 
 def gen_conn(rng, tier, mult):
-    n = (300 if tier == "quick" else 6000) * mult
+    n = (5000 if tier == "quick" else 30000) * mult
     cases = []
     # exhaustive: every outcome string of length <= 4 (quick) / 6 (thorough), with and without timeout
     import itertools
